@@ -217,6 +217,17 @@ def replay_case(arg):
                         fail('ReducedLenOK', 'length', dict(ctx, got=list(g.shape), expected=rec['reducedlen']))
                     elif not interp.close(g, exp, rtol=1e-8, atol=1e-8):
                         fail('ReducedComplete', 'gradient', dict(ctx, got=g.tolist(), expected=exp.tolist()))
+                    # documented: "reduce is prioritised over flattened" -- the hierarchical form is the same whatever the
+                    # other flag says
+                    try:
+                        out_rf = model.compute_sensitivities(P_in, eta_in, flattened=False, **kw)
+                        g_rf = np.asarray(out_rf[1], dtype=float)
+                        cnt['evaluations'] = cnt.get('evaluations', 0) + 1
+                        if len(out_rf) != len(out) or g_rf.shape != g.shape or not interp.close(g_rf, g, rtol=1e-10, atol=1e-10):
+                            fail('ReducedComplete', 'reduce_not_prioritised_over_flattened',
+                                 dict(ctx, got=list(g_rf.shape), expected=list(g.shape)))
+                    except TypeError:
+                        pass                                       # (a class whose method has no such flag)
                 else:
                     dpsi = np.asarray(out[1], dtype=float)
                     dth = np.asarray(out[2], dtype=float)
